@@ -857,6 +857,65 @@ def c04_worker(job):
                                                      canon_model=canon_model)[:3]:
                         out['violations'].append((f'callVariant --threads {th}: {v}',
                                                   dict(d2, kind='hygiene')))
+        # (a) a FRACTIONAL mass limit just above a reported peptide: m < min_mw < ceil(m) — the
+        # peptide must go, and nothing lighter than the limit may stay
+        if run.status == 'ok' and run.fasta and rng.random() < 0.6:
+            from Bio.SeqUtils import molecular_weight
+            import math
+            cand = sorted(sq for sq in run.fasta if 'X' not in sq and '*' not in sq)
+            pick = rng.choice(cand)
+            m = molecular_weight(pick, 'protein')
+            edge = round(m + (math.ceil(m) - m) / 2, 3)
+            if m < edge < math.ceil(m):
+                kw3 = dict(kw, min_mw=edge)
+                lim3 = (edge, kw['min_length'], kw['max_length'])
+                run3 = gen_ref.run_call_variant(case, tag='cvmw', **kw3)
+                out['stats']['fractional_min_mw_runs'] = 1
+                d3 = dict(desc, min_mw=edge, kind='hygiene', just_below_limit=pick)
+                if run3.status == 'ok':
+                    canon3 = pipe.canonical_pool(case, **kw3)
+                    for v in pipe.hygiene_violations(run3, canon3, lim3)[:3]:
+                        out['violations'].append((f'callVariant --min-mw {edge}: {v}', d3))
+        # (b) through an index directory whose EARLIER pools were built for narrower length windows
+        # (generateIndex defaults, updateIndex with a narrow window, updateIndex with the requested
+        # parameters): the command must filter with the pool of ITS parameters — a canonical peptide
+        # longer than an earlier window must not be written.  On the inputs with planted I->L
+        # variants (variant peptides that ARE canonical peptides of the twin isoform), trypsin,
+        # max_length 40.
+        if run.status == 'ok' and multi:
+            kwi = dict(kw, cleavage_rule='trypsin', max_length=40)
+            limi = (kwi['min_mw'], kwi['min_length'], 40)
+            try:
+                run0 = gen_ref.run_call_variant(case, tag='cvi0', **kwi)
+                canoni = pipe.canonical_pool(case, **kwi)
+                canon_modeli = pipe.lean_canonical_pool(case, **kwi)
+                idx = make_index_dir(case)          # trypsin / no exception / 2 / 500. / 7 / 25
+                narrow = rng.choice([9, 12, 15, 20])
+                first = dict(miscleavage=kwi['miscleavage'], min_mw=kwi['min_mw'],
+                             min_length=kwi['min_length'], max_length=narrow)
+                update_index_dir(idx, **first)
+                update_index_dir(idx, miscleavage=kwi['miscleavage'], min_mw=kwi['min_mw'],
+                                 min_length=kwi['min_length'], max_length=40)
+                run4 = gen_ref.run_call_variant(case, tag='cvidx', index_dir=idx, **kwi)
+                out['stats']['index_route_runs'] = 1
+                d4 = dict(desc, kind='hygiene', cleavage_rule='trypsin', max_length=40,
+                          index_history=['generateIndex 2/500/7/25', f'updateIndex {first}',
+                                         'updateIndex <requested>'])
+                if run4.status == 'ok' and run0.status == 'ok':
+                    out['stats']['index_route_canonical_longer_than_first_window'] = sum(
+                        1 for sq in (canon_modeli or canoni) if len(sq) > narrow)
+                    for v in pipe.hygiene_violations(run4, canoni, limi, canon_model=canon_modeli)[:3]:
+                        out['violations'].append((f'callVariant --index-dir: {v}', d4))
+                    if set(run4.fasta) != set(run0.fasta):
+                        out['violations'].append((
+                            'callVariant --index-dir writes other peptides than the run on the reference files: '
+                            f'only with index {sorted(set(run4.fasta) - set(run0.fasta))[:3]}, only without '
+                            f'{sorted(set(run0.fasta) - set(run4.fasta))[:3]}', d4))
+                elif run4.status != run0.status:
+                    out['violations'].append((f'callVariant --index-dir: {run4.status} ({run4.error}) but '
+                                              f'{run0.status} on the reference files', d4))
+            finally:
+                shutil.rmtree(case.dir / 'index', ignore_errors=True)
         # callNovelORF / callAltTranslation
         for cmd in ('callNovelORF', 'callAltTranslation'):
             r2, canon2 = run_other(case, cmd, kw, rng)
